@@ -69,7 +69,7 @@ fn plan_for(prop: &str, a: &Args) -> Plan {
             crafted_ep_stride: if thorough { 1 } else { 4 },
             crafted_other: true,
             evasion_cases: if thorough { 40000 } else { 6000 },
-            walks: walks(500.0, 12000.0),
+            walks: walks(2500.0, 20000.0),
             max_plies: 200,
             tree_depth: if thorough { 3 } else { 0 },
             tree_roots: 40,
@@ -80,7 +80,7 @@ fn plan_for(prop: &str, a: &Args) -> Plan {
             crafted_ep_stride: if thorough { 2 } else { 16 },
             crafted_other: true,
             evasion_cases: if thorough { 10000 } else { 2000 },
-            walks: walks(250.0, 6000.0),
+            walks: walks(800.0, 8000.0),
             max_plies: 200,
             tree_depth: if thorough { 2 } else { 0 },
             tree_roots: 40,
@@ -91,7 +91,7 @@ fn plan_for(prop: &str, a: &Args) -> Plan {
             crafted_ep_stride: if thorough { 2 } else { 16 },
             crafted_other: true,
             evasion_cases: if thorough { 20000 } else { 4000 },
-            walks: walks(400.0, 10000.0),
+            walks: walks(2500.0, 20000.0),
             max_plies: 220,
             tree_depth: if thorough { 3 } else { 0 },
             tree_roots: 40,
@@ -102,7 +102,7 @@ fn plan_for(prop: &str, a: &Args) -> Plan {
             crafted_ep_stride: if thorough { 4 } else { 32 },
             crafted_other: true,
             evasion_cases: 1000,
-            walks: walks(400.0, 10000.0),
+            walks: walks(2000.0, 20000.0),
             max_plies: 200,
             tree_depth: if thorough { 3 } else { 0 },
             tree_roots: 40,
@@ -113,7 +113,7 @@ fn plan_for(prop: &str, a: &Args) -> Plan {
             crafted_ep_stride: if thorough { 4 } else { 32 },
             crafted_other: true,
             evasion_cases: 1000,
-            walks: walks(400.0, 10000.0),
+            walks: walks(2000.0, 20000.0),
             max_plies: 200,
             tree_depth: if thorough { 2 } else { 0 },
             tree_roots: 40,
@@ -124,7 +124,7 @@ fn plan_for(prop: &str, a: &Args) -> Plan {
             crafted_ep_stride: if thorough { 8 } else { 64 },
             crafted_other: true,
             evasion_cases: 1000,
-            walks: walks(150.0, 3000.0),
+            walks: walks(600.0, 6000.0),
             max_plies: 160,
             tree_depth: 0,
             tree_roots: 0,
@@ -135,7 +135,7 @@ fn plan_for(prop: &str, a: &Args) -> Plan {
             crafted_ep_stride: if thorough { 8 } else { 64 },
             crafted_other: true,
             evasion_cases: 1000,
-            walks: walks(200.0, 5000.0),
+            walks: walks(800.0, 8000.0),
             max_plies: 160,
             tree_depth: 0,
             tree_roots: 0,
